@@ -305,6 +305,60 @@ Section Synth.
     reflexivity.
   Qed.
 
+  (* ---- certified values: the exact sequence E[Q]_0, E[Q]_1, ... computed from the validated
+     items alone (no candidate closed form involved).  Used by the search: a candidate f whose
+     value differs from this list at some n is refuted at that n. ---- *)
+  Fixpoint iter_vals (k : Qc) (l : list (Qc * eitem)) (cur : Qc) (n N : nat) : list Qc :=
+    match N with
+    | O => []
+    | S N' => cur :: iter_vals k l (k * cur + eff_val l n) (S n) N'
+    end.
+
+  Definition synth_values (fp : flatprog) (T : tenv) (Q : poly) (k : Qc) (items : list eitem) (N : nat) : option (list Qc) :=
+    if check_types fp T && forallb (check_item fp T) items then
+      match wp_gas cmom T (fp_body fp) Q, wp_gas cmom [] (fp_init fp) Q with
+      | Some W, Some Iw =>
+          match eff_items (eff_residual T W Q k) items with
+          | Some l => if pequiv [] Iw (pconst (eval_poly Iw st0)) then Some (iter_vals k l (eval_poly Iw st0) 0 N) else None
+          | None => None
+          end
+      | _, _ => None
+      end
+    else None.
+
+  Lemma iter_vals_nth k l (g : nat -> Qc) :
+    (forall n, g (S n) = k * g n + eff_val l n) ->
+    forall N n0 i, (i < N)%nat -> nth i (iter_vals k l (g n0) n0 N) 0 = g (n0 + i)%nat.
+  Proof.
+    intros Hg; induction N as [|N IH]; intros n0 i Hi; [lia|].
+    cbn [iter_vals]. destruct i as [|i]; cbn [nth].
+    - rewrite Nat.add_0_r. reflexivity.
+    - rewrite <- (Hg n0). rewrite (IH (S n0) i) by lia. f_equal. lia.
+  Qed.
+
+  Theorem synth_values_sound fp T Q k items N vs :
+    synth_values fp T Q k items N = Some vs ->
+    forall s0, init_ok fp T s0 ->
+    forall n, (n < N)%nat -> nth n vs 0 = E (frun law fp n s0) (eval_poly Q).
+  Proof.
+    unfold synth_values. intros H s0 H0 n Hn.
+    destruct (check_types fp T && forallb (check_item fp T) items) eqn:Hck; [|discriminate].
+    apply andb_true_iff in Hck; destruct Hck as [HT Hit].
+    destruct (wp_gas cmom T (fp_body fp) Q) as [W|] eqn:EW; [|discriminate].
+    destruct (wp_gas cmom [] (fp_init fp) Q) as [Iw|] eqn:EI; [|discriminate].
+    destruct (eff_items (eff_residual T W Q k) items) as [l|] eqn:El; [|discriminate].
+    destruct (pequiv [] Iw (pconst (eval_poly Iw st0))) eqn:Ep; [|discriminate].
+    injection H as <-.
+    set (g := fun j => E (frun law fp j s0) (eval_poly Q)).
+    assert (Hg0 : g 0%nat = eval_poly Iw st0).
+    { unfold g. cbn [frun].
+      rewrite (wp_gas_exact law cmom [] (fp_init fp) Hc (check_ga_nil _) Q Iw s0 (typed_nil s0) EI).
+      rewrite (pequiv_sound [] _ _ Ep s0 (typed_nil s0)). apply eval_pconst. }
+    rewrite <- Hg0.
+    rewrite (iter_vals_nth k l g (poly_step fp T Q W k items l HT Hit EW El s0 H0) N 0 n Hn).
+    reflexivity.
+  Qed.
+
   (* ---- the synthesized solvable loop simulates the original ---- *)
   Definition check_polystep (fp : flatprog) (T : tenv) (P : poly) (k : Qc) (R : poly) : bool :=
     match wp_gas cmom T (fp_body fp) P with
